@@ -84,6 +84,37 @@ def build_session(rng, tmp, kind, metric, thorough):
     return s
 
 
+def build_knn_pre_session(rng, tmp):
+    """KNNSupervisedOPF on a pre-computed n x n matrix: samples are rows of the matrix, addressed through index arrays; the
+    same row must get the same label whatever its position in the batch."""
+    import numpy as np
+    import opfython.math.distance as d
+    s = SC.Session(rng, tmp)
+    X, Y = make_data(rng, np, n=rng.randrange(6, 12))
+    n = len(X)
+    s.add(X, "X")
+    s.add(Y, "Y")
+    s.seal()
+    fn = d.DISTANCES["euclidean"]
+    D = np.array([[fn(X[i].copy(), X[j].copy()) for j in range(n)] for i in range(n)])
+    D = np.minimum(D, D.T)
+    o = s.new_model("knn", 1, max_k=rng.randrange(1, 4), distance="euclidean")
+    m = s.objs[o]["m"]
+    m.pre_computed_distance = True
+    m.pre_distances = D
+    I = list(range(n))
+    rng.shuffle(I)
+    I = np.array(I)
+    Iv = np.array(rng.sample(range(n), 3))
+    Yv = Y[Iv].copy()
+    Yv[0] = Y.max()
+    s.fit(o, 1, X[I].copy(), Y[I].copy(), (X[Iv].copy(), Yv, Iv), I=I)
+    for _ in range(rng.randrange(5, 10)):
+        idx = np.array([rng.randrange(n) for _ in range(rng.randrange(1, n))])
+        s.predict(o, 1, X[idx].copy(), idx)
+    return s
+
+
 def run(tier, seed):
     rep = H.Report(PID, tier, seed, "model_checking")
     c07.design(rep)
@@ -99,6 +130,8 @@ def run(tier, seed):
     for i in range(400 if thorough else 72):
         kind = ["sup", "semi", "knn", "unsup"][i % 4]
         sessions.append((build_session(rng, tmp, kind, rng.choice(mets), thorough), {"kind": kind, "i": i}))
+    for i in range(60 if thorough else 10):
+        sessions.append((build_knn_pre_session(rng, tmp), {"kind": "knn-pre", "i": i}))
     rej = SC.judge(rep, sessions, "c09", None)
     rep.sample({"kind": sessions[2][1], "events": [{k: v for k, v in e.items() if k != "arr"} for e in sessions[2][0].ev[:6]]})
     rep.count("predictions_judged", sum(1 for s, _ in sessions for e in s.ev if e["op"] == "pred"))
